@@ -1,5 +1,6 @@
 """C01: every input file is handled without crash, hang or abnormal exit."""
 import concurrent.futures
+import json
 import os
 import re
 import shutil
@@ -14,6 +15,11 @@ TRUSTED = [
     'axioms: none (Print Assumptions must report "Closed under the global context" for every theorem of Props/C01.v)',
     'Props/C01.v collects the no-crash / totality theorems of the component models (C02, C04-C07, C09, C11-C16, C18-C20 as available) and the handler table',
     'the component models are hand-written and tied to the code by their own correspondence checks',
+    'tools/gen/gen_raisesites.py (python ast of /repo/lib -> Generated/RaiseSites.v): its call resolution (simple name / attribute name within lib/, per-class self dispatch, '
+    'union over classes for unknown receivers, same-module-first), its list of implicit raisers outside lib/ (IMPLICIT, DIVISION_FILES, EXTERNAL_ENTRY for polib, the codec registry), '
+    'and its three reviewed tables: DEAD_RAISES (defensive raises excluded from the summaries), WHITELIST (rows deliberately left uncaught), CALLEE_OVERRIDES',
+    'C01_every_own_error_is_caught is about that table: exceptions raised by code outside lib/ other than the listed implicit raisers (e.g. UnicodeError from the idna codec, D11; '
+    'RecursionError, D12; KeyError / IndexError / TypeError from subscripts and operators) are not in it; notes/C01.md lists what it does not establish',
     'runtime behaviour (exit status, stderr, wall time, recursion limit, regex backtracking, memory) is explored through the real CLI, not modelled',
 ]
 ASSUME = ['time bounds are measured on this machine under a per-run cap; "low-degree polynomial" is tested as t(2n)/t(n) below 4.5 (quadratic plus noise) on pumped families']
@@ -124,6 +130,14 @@ def gen_files(ctx, d):
                     cat['entries'].append({'msgid': v, 'msgid_plural': v + ' s', 'msgstr_plural': [v, 'x', v + v], 'flags': [flag, 'range:0..3']})
                 files.append((w(d, 'f%d.%s' % (i, 'pot' if shape == 0 and i % 2 else 'po'), pogen.render(cat)), 'component:' + flag))
                 i += 1
+    # a lone surrogate reaching the XML check (D26, fixed: s.encode('UTF-8') in lib/xml.py raised UnicodeEncodeError) -- found by the RaiseSites table
+    for cs in ['raw_unicode_escape', 'unicode_escape', 'utf-16', 'utf-8', 'utf-7']:
+        for mid, mstr in [('a\\ud800', 'b'), ('<a>x</a>', '<a>\\udfff</a>'), ('\\ud800\\udc00', '\\udc00\\ud800'), ('+2AA-', '+2AA-')]:
+            for ext, com in [('po', 'type: Content of: <para>'), ('pot', 'type: Content of: <para><b>'), ('po', 'type: Content of: <para>x')]:
+                text = ('msgid ""\nmsgstr ""\n"Content-Type: text/plain; charset=%s\\n"\n"Language: pl\\n"\n\n#. %s\nmsgid "%s"\nmsgstr "%s"\n'
+                        % (cs, com, mid, '' if ext == 'pot' else mstr))
+                files.append((w(d, 'xs%d.%s' % (i, ext), text), 'component:xml-surrogate'))
+                i += 1
     # flags and ranges
     for fl in ['range:' + '9' * 5000 + '..' + '9' * 5001, 'range:1..', 'range:..', 'range: 1..2 ', 'range:2..1', 'range:1..2, range:1..3', ', ,', 'fuzzy, fuzzy', '\x1b', 'c-format, no-c-format']:
         cat = pogen.base_catalog()
@@ -222,6 +236,7 @@ def pumped_families():
 def check(ctx):
     build = common.coq_build()
     aud = common.audit(ctx.id, coqchk=not ctx.quick())
+    report_raise_sites(ctx, build)
     d = os.path.join(common.WORK, 'c01')
     shutil.rmtree(d, ignore_errors=True)
     os.makedirs(d)
@@ -311,6 +326,27 @@ def check(ctx):
              'in batches with -l / --file-type / -j variations, culprits re-run alone: rc 0, empty stderr, every stdout line matches the line grammar, time under the cap; '
              'pumped families (size doubling) for time growth. non-trivial = distinct generated file that was processed cleanly, or a pumped family',
         explanation='Partial: the component no-crash theorems are about the models; exit status, stderr, recursion limits, regex cost and time are explored on the real CLI.')
+
+
+def report_raise_sites(ctx, build):
+    """The static half (C01_every_own_error_is_caught) is decided by Coq over Generated/RaiseSites.v.  This only names, in the
+    replay file of a broken tie, the rows that make it fail -- read from the JSON twin the translator writes next to the table."""
+    path = os.path.join(common.VERIF, 'coq', 'Generated', 'RaiseSites.json')
+    if build['gen_rc'] != 0 or not os.path.exists(path):
+        ctx.notes.append('RaiseSites table not regenerated (gen_rc=%s)' % build['gen_rc'])
+        return
+    t = json.load(open(path))
+    ctx.stats['raise-sites'] = dict(t['by_disposition'], rows=t['rows'], lib_raise_sites=t['lib_raise_sites'], dead_raise_sites=t['dead_raise_sites'], asserts=t['asserts'])
+    for k in ('stale_whitelist', 'stale_overrides', 'revoked_dead'):
+        if t.get(k):
+            ctx.notes.append('gen_raisesites %s: %r' % (k, t[k]))
+    for r in t['uncaught']:
+        ctx.disagree('exception-flow', {'file': r['file'], 'line': r['line'], 'function': r['func'], 'callee': r['callee'], 'class': r['class'], 'raised_at': r['origin']},
+                     'caught by an enclosing except clause, or reviewed', 'uncaught: ' + r['disp'][1])
+    for r in t['unclassified_raises']:
+        ctx.disagree('exception-flow', {'raise': r}, 'a raise statement of a known exception class', 'unclassified')
+    for r in t['implicit_methods_nonempty']:
+        ctx.disagree('exception-flow', {'method': r}, 'operator / attribute-access methods raise nothing', 'non-empty may-raise summary')
 
 
 def classify_known(name, data, errs, rc):
